@@ -313,6 +313,20 @@ def r2(R, m):
     R.check(all(k == va for k in keys + tests) and bool(stores) and bool(added) and not any(isinstance(x, (ast.Break, ast.Continue)) for l in loops for x in ast.walk(l)),
             "C16.R2", REL, gen.lineno, "generate_group", "cache keyed by the full generator tuple; every generator added",
             "cache key or generator loop changed: different groups could share a cache entry")
+    # the group enters the cache only when it is complete: no additem() on the cached object can follow the store on any path.  A group
+    # published first and filled afterwards is handed, partly built, to any other thread that asks in between, and stays in the cache
+    # half built if the construction is interrupted
+    cfgg = pyfacts.PyCFG(gen)
+    import networkx as nx
+    for stx in stores:
+        sn = cfgg.node_of(pyfacts.containing_stmt(stx))
+        R.shape(sn is not None, "C16.R2", REL, "generate_group", "the statement that stores into symcache")
+        later = nx.descendants(cfgg.g, sn.id)
+        after = [c for c in added if cfgg.node_of(pyfacts.containing_stmt(c)) is not None and cfgg.node_of(pyfacts.containing_stmt(c)).id in later]
+        R.check(not after, "C16.R2", REL, stx.lineno, "generate_group", "symcache[...] is stored after the last additem()",
+                "the group object is put into the cache before its operators are generated (additem at line %s runs after the store): a second "
+                "thread asking for the same group meanwhile, or any later call after an interrupted first construction, gets a partial group "
+                "(not closed, wrong order) and reduces with it silently" % (after[0].lineno if after else ""))
 
 
 def r3(R, m):
